@@ -235,7 +235,7 @@ def check(tier, seed):
                      "the Coq transcription of C++ arithmetic (NumDefs.cbin_eval/convert, SpecFloat round-to-nearest-even) is validated against g++-compiled operators by this very matrix",
                      "translator tools/translate/t_NumTables.py (shape recogniser over boxed_number.hpp, chaiscript_algebraic.hpp, bootstrap.hpp)",
                      "extraction: ExtrOcamlBasic + ExtrOcamlString, no Extract Constant; OCaml driver does line I/O only"]
-    c.prove("Properties_C05", translators=None)
+    c.prove("Properties_C05", translators=["NumTables"])
     hbin = vlib.cxx_build("h_num")
     rc, out, _ = vlib.run([hbin, "platform"])
     plat = out.decode().strip()
